@@ -289,18 +289,15 @@ Definition next_label (p : rpc) : option label :=
   | RIdle | RParked | RGone => None
   end.
 
-Definition last_ret (s : state) : option (list upd) :=
-  match last (delivered s) (RecvRet None) with RecvRet v | TryRet v => v end.
-
 (* run the receiver until the poll returns; [None] = out of fuel or stuck (excluded by theorem) *)
 Fixpoint poll_loop (fuel : nat) (s : state) : option (state * poll_result) :=
   match fuel with
   | O => None
   | S k =>
       match r_pc s with
-      | RIdle => Some (s, Ready (last_ret s))
       | RParked => Some (s, Pending)
-      | RGone => None
+      | RReturning _ v =>
+          match step s RDropFut with Some s' => Some (s', Ready v) | None => None end
       | p => match next_label p with
              | Some lb => match step s lb with Some s' => poll_loop k s' | None => None end
              | None => None
@@ -332,7 +329,7 @@ Definition run_op (o : op) (s : state) : option (state * obs) :=
   | OPoll => match op_poll s with Some (s', r) => Some (s', ObsPoll r) | None => None end
   | OCancel => match step s RCancel with Some s' => Some (s', ObsUnit) | None => None end
   | ODropReceiver => match step s RDropReceiver with Some s' => Some (s', ObsUnit) | None => None end
-  | OTry => match step s RTryRecv with Some s' => Some (s', ObsTry (last_ret s')) | None => None end
+  | OTry => match step s RTryRecv with Some s' => Some (s', ObsTry (slot s)) | None => None end
   end.
 
 (* run a script from a state; per operation: the observation and the cumulative wake count.
@@ -347,6 +344,103 @@ Fixpoint run_ops (os : list op) (s : state) : option (list (obs * nat)) :=
           match run_ops r s' with Some tl => Some ((ob, wakes s') :: tl) | None => None end
       | None => None
       end
+  end.
+
+(* ---- the specification at poll granularity, written from the property text ----------------
+   An abstract queue: [a_pend] = updates merged and not yet received (in order).  Demanded:
+   * merge: Ok iff the consumer still exists ("the producer learns when the consumer is gone");
+     an accepted update is appended to the pending ones;
+   * poll of recv: all pending updates, in order, in ONE value, if there are any ("every update is
+     observed in exactly one received value, in order"); else None if the producer is gone ("it
+     learns of the producer's disappearance only after taking the last pending value"); else
+     Pending;
+   * cancel: drops the wait, nothing else;
+   * whenever the consumer is parked and a value is pending or the producer is gone, a wake-up
+     has been issued since it parked ("woken whenever a value is pending, also when its wait is
+     cancelled and restarted").
+   [None] = the operation is not available in that state (endpoint already dropped, ...). *)
+Record astate := mkA {
+  a_pend : list upd; a_salive : bool; a_ralive : bool; a_parked : bool;
+  a_base : nat   (* wake count when the consumer parked *)
+}.
+Definition a_init : astate := mkA [] true true false O.
+Definition opt_of_list (l : list upd) : option (list upd) := match l with [] => None | _ => Some l end.
+
+Definition spec_op (o : op) (a : astate) (wk : nat) : option (obs * astate) :=
+  match o with
+  | OMerge x =>
+      if a_salive a
+      then if a_ralive a
+           then Some (ObsSend true, mkA (a_pend a ++ [x]) true true (a_parked a) (a_base a))
+           else Some (ObsSend false, a)
+      else None
+  | ONoop => if a_salive a then Some (ObsSend (a_ralive a), a) else None
+  | ODropSender =>
+      if a_salive a then Some (ObsUnit, mkA (a_pend a) false (a_ralive a) (a_parked a) (a_base a)) else None
+  | OPoll =>
+      if a_ralive a
+      then match a_pend a with
+           | _ :: _ => Some (ObsPoll (Ready (Some (a_pend a))), mkA [] (a_salive a) true false (a_base a))
+           | [] => if a_salive a
+                   then Some (ObsPoll Pending, mkA [] true true true wk)
+                   else Some (ObsPoll (Ready None), mkA [] false true false (a_base a))
+           end
+      else None
+  | OCancel =>
+      if a_parked a then Some (ObsUnit, mkA (a_pend a) (a_salive a) (a_ralive a) false (a_base a)) else None
+  | ODropReceiver =>
+      if a_ralive a && negb (a_parked a)
+      then Some (ObsUnit, mkA (a_pend a) (a_salive a) false false (a_base a)) else None
+  | OTry =>
+      if a_ralive a && negb (a_parked a)
+      then Some (ObsTry (opt_of_list (a_pend a)), mkA [] (a_salive a) true false (a_base a)) else None
+  end.
+
+Definition wake_ok (a : astate) (wk : nat) : bool :=
+  if a_parked a && (match a_pend a with [] => false | _ => true end || negb (a_salive a))
+  then (a_base a <? wk)%nat else true.
+
+Fixpoint list_eqb (a b : list N) : bool :=
+  match a, b with
+  | [], [] => true
+  | x :: a', y :: b' => (x =? y) && list_eqb a' b'
+  | _, _ => false
+  end.
+Definition optl_eqb (a b : option (list N)) : bool :=
+  match a, b with
+  | None, None => true
+  | Some x, Some y => list_eqb x y
+  | _, _ => false
+  end.
+Definition obs_eqb (a b : obs) : bool :=
+  match a, b with
+  | ObsSend x, ObsSend y => Bool.eqb x y
+  | ObsUnit, ObsUnit => true
+  | ObsPoll Pending, ObsPoll Pending => true
+  | ObsPoll (Ready x), ObsPoll (Ready y) => optl_eqb x y
+  | ObsTry x, ObsTry y => optl_eqb x y
+  | _, _ => false
+  end.
+
+(* THE PROPERTY PREDICATE on an observed trace (one (observation, cumulative wake count) per
+   operation of the script) *)
+Fixpoint spec_check (os : list op) (a : astate) (tr : list (obs * nat)) : bool :=
+  match os, tr with
+  | [], [] => true
+  | o :: os', (ob, wk) :: tr' =>
+      match spec_op o a wk with
+      | Some (ob', a') => obs_eqb ob ob' && wake_ok a' wk && spec_check os' a' tr'
+      | None => false
+      end
+  | _, _ => false
+  end.
+
+(* which scripts the specification allows at all (availability of each operation; it does not
+   depend on the wake counts) *)
+Fixpoint spec_avail (os : list op) (a : astate) : bool :=
+  match os with
+  | [] => true
+  | o :: r => match spec_op o a O with Some (_, a') => spec_avail r a' | None => false end
   end.
 
 (* ---- acceptor of the multi-thread stress ------------------------------------------------
